@@ -11,11 +11,11 @@
     (carquet_rle_encode_all / carquet_rle_decode_all: [rle_decode w bytes max] = the values decoded, at
     most [max], or [Err] where the C function returns -1). *)
 From Coq Require Import NArith ZArith List Bool.
-From Carquet Require Import Base.Res Enc.DeltaBits Enc.PlainModel.
+From Carquet Require Import Gen.Enums_gen Base.Res Enc.DeltaBits Enc.PlainModel.
 Import ListNotations.
 Local Open Scope N_scope.
 
-Definition ERR_DECODE : Z := 40%Z.
+Definition ERR_DECODE : Z := E_CARQUET_ERROR_DECODE.
 
 Fixpoint bytes_eqb (a b : list N) : bool :=
   match a, b with
